@@ -201,6 +201,8 @@ pub struct Stats {
     /// a collect_exactly ran short because the underlying bound was reached, not because an item failed
     pub short_array_no_event: bool,
     pub max_depth: usize,
+    /// failures of `not` (their position/bookkeeping is pinned, not specified: error comparisons are lenient)
+    pub not_failures: u64,
 }
 
 pub struct Model<'a> {
@@ -663,6 +665,7 @@ impl<'a> Model<'a> {
                         self.abandoned(&r, p);
                         let mut e = MErr::new(p, (p, end), [Exp::SomethingElse]);
                         e.from_not = true;
+                        self.stats.not_failures += 1;
                         self.fail(e);
                         R::Fail
                     }
